@@ -193,8 +193,19 @@ func (r *msetRequest) Split() []*simpleRequest {
 func (r *msetRequest) onChildDone(simpleReq *simpleRequest) {
 	wait := r.childWait.Dec()
 	if wait == 0 {
-		r.raw.SetResponse(respOK)
+		r.setResponse()
 	}
+}
+
+func (r *msetRequest) setResponse() {
+	// MSET is only acknowledged when every key was set.
+	for _, child := range r.children {
+		if resp := child.Response(); resp.Type == Error {
+			r.raw.SetResponse(resp)
+			return
+		}
+	}
+	r.raw.SetResponse(respOK)
 }
 
 type mgetRequest struct {
